@@ -6,7 +6,8 @@
    coq/RansacModel.v and coq/IcpModel.v, which are tied to the code by the correspondence run):
      iterations_monotone, iterations_formula, estimate_logic, inliers_are_3sigma_filter,
      best_consensus_invariant, success_error_below_sigma, outliers_no_influence, one_to_one_filter,
-     icp_returns_true_iff_break, icp_best_is_min_rmse.
+     icp_returns_true_iff_break, icp_best_is_min_rmse,
+     zero_displacement_estimate_identity, zero_displacement_icp_identity ("with zero displacement it returns the identity").
 
    C06_convergence_partial — what NO theorem here covers:
      * that FindRigidTransformationByICP::find converges to within 0.015 (Frobenius) of the true motion for every
@@ -22,7 +23,9 @@
 From Coq Require Import Reals ZArith List Bool Lra Lia Sorted Permutation.
 From Flocq Require Import Core.Raux.
 From Romea Require Import Num NumR RansacModel IcpModel RansacProofs EstimateProofs RigidProofs IcpProofs RansacProbability.
-From Romea.gen Require Import RepoConstants.
+From Romea Require Import LinAlgBModel LinAlgBProofs LsModel LsProofs LsHistoryProofs P2pModel P2pProofs ZeroDispProofs ZeroDispRansac.
+From Romea Require Import SrcTieC06.
+From Romea.gen Require Import RepoConstants SrcRansac.
 Import ListNotations.
 
 (* ------------------------------------------------------------------------------------------------ RansacIterations *)
@@ -320,6 +323,252 @@ Proof.
   replace (Rltb 0 (1 / 1000)) with true by (symmetry; apply Rltb_true; lra).
   eexists. split; [reflexivity|]. split; reflexivity.
 Qed.
+
+(* ------------------------------------------------------------------------------------------------ zero displacement *)
+(* "with zero displacement it returns the identity" — the point-to-plane estimator (P2pModel.v on LsModel.v, the models
+   of C05 / C07), over the reals, for ANY LDLT / SVD oracle (no contract is needed: J^T Y = 0 makes the answer Bc whatever
+   matrix the oracle returns), for both SVD thresholds ([svd_fixed]), 2D and 3D, Cartesian and homogeneous points
+   ([ps] = number of stored coordinates), from any state of the estimator object the code can configure
+   ([p2p_configured]: the constructor, any setPreconditioner, any earlier find).
+   If every correspondence pairs a target point with an identical source point (any normals; any subset, order or
+   multiplicity of correspondences) then estimate_ returns EXACTLY the identity matrix — and it does return. *)
+Theorem C06_zero_displacement_estimate_identity :
+  forall inverse_of svd_of (fill : R) (svd_fixed : bool) d ps,
+  (d = 2 \/ d = 3)%nat ->
+  (* estimate_ on the triples (source, target, normal) *)
+  (forall triples st, p2p_configured d st -> (1 <= length triples)%nat -> zero_disp triples ->
+     exists st2, p2p_estimate ROps inverse_of svd_of fill svd_fixed d ps triples st = Some (st2, midentity ROps (S d)) /\
+                 p2p_configured d st2) /\
+  (* find(source, target, normals, correspondences) *)
+  (forall src tgt nrm corr st tr, p2p_configured d st -> (1 <= length corr)%nat -> corr_zero_disp src tgt corr ->
+     triples_of_corr src tgt nrm corr = Some tr ->
+     exists st2, p2p_find_corr ROps inverse_of svd_of fill svd_fixed d ps src tgt nrm corr st = Some (st2, midentity ROps (S d)) /\
+                 p2p_configured d st2) /\
+  (* find(points, points, normals) *)
+  (forall pts nrm st, p2p_configured d st -> (1 <= length pts)%nat -> (length pts <= length nrm)%nat ->
+     exists st2, p2p_find_aligned ROps inverse_of svd_of fill svd_fixed d ps pts pts nrm st = Some (st2, midentity ROps (S d)) /\
+                 p2p_configured d st2).
+Proof.
+  intros inv svd fill fx d ps Hd. split; [|split].
+  - intros. now apply zero_disp_estimate_identity.
+  - intros. now apply (zero_disp_find_corr_identity inv svd fill fx d ps src tgt nrm corr st tr).
+  - intros. now apply zero_disp_find_aligned_identity.
+Qed.
+Print Assumptions C06_zero_displacement_estimate_identity.
+
+(* every estimator path of the solver on the loaded zero-displacement problem (Cholesky, repaired SVD, original SVD)
+   returns the parameter vector 0; the un-preconditioned solution inv * J^T Y is 0 for every matrix inv; and under the
+   right-inverse contract of C07 the normal equations J^T J z = 0 have no other solution *)
+Theorem C06_zero_displacement_all_solver_paths :
+  forall inverse_of svd_of (fill : R) (svd_fixed : bool) d ps triples st st1,
+  (d = 2 \/ d = 3)%nat -> p2p_configured d st -> (1 <= length triples)%nat -> zero_disp triples ->
+  p2p_load ROps inverse_of svd_of fill svd_fixed d ps triples st = Some st1 ->
+  (exists st2 x, ls_estimate_chol ROps inverse_of st1 = Some (st2, x) /\ forall i, (i < p2p_k d)%nat -> vget ROps x i = 0%R) /\
+  (exists st2 x, ls_estimate_svd ROps svd_of st1 = Some (st2, x) /\ forall i, (i < p2p_k d)%nat -> vget ROps x i = 0%R) /\
+  (exists st2 x, ls_estimate_svd_abs ROps svd_of st1 = Some (st2, x) /\ forall i, (i < p2p_k d)%nat -> vget ROps x i = 0%R) /\
+  (forall inv i, ls_z st1 inv i = 0%R) /\
+  (forall inv z, inv_contract (ls_k st1) (ls_JtJ ROps st1) inv ->
+     (forall i, (i < p2p_k d)%nat -> grad (ls_n st1) (p2p_k d) (Jf st1) (Yf st1) z i = 0%R) ->
+     forall i, (i < p2p_k d)%nat -> z i = 0%R).
+Proof. exact zero_disp_all_paths. Qed.
+Print Assumptions C06_zero_displacement_all_solver_paths.
+
+(* the configured states: the constructor's, and closed under setPreconditioner with any scale (the theorem above closes
+   them under estimate_ / find); identical points stay identical under the preconditioned overloads *)
+Theorem C06_zero_displacement_configurations : forall d, (d = 2 \/ d = 3)%nat ->
+  p2p_configured d (p2p_new ROps d) /\
+  (forall scale st, p2p_configured d st -> p2p_configured d (p2p_set_preconditioner ROps d scale st)) /\
+  (forall c src tgt corr,
+     Forall (fun p : nat * nat => (fst p < length src)%nat /\ (snd p < length tgt)%nat) corr ->
+     corr_zero_disp src tgt corr -> corr_zero_disp (p2p_precondition ROps c src) (p2p_precondition ROps c tgt) corr).
+Proof.
+  intros d Hd. split; [now apply p2p_configured_new|]. split.
+  - intros. now apply p2p_configured_set_preconditioner.
+  - exact corr_zero_disp_precondition.
+Qed.
+Print Assumptions C06_zero_displacement_configurations.
+
+(* non-vacuity: a 2D zero-displacement problem with two correspondences of one point pair and one of another *)
+Example C06_zero_displacement_example :
+  corr_zero_disp [[1; 2]; [3; 5]]%R [[3; 5]; [1; 2]]%R [(0, 1); (1, 0); (0, 1)]%nat /\
+  triples_of_corr [[1; 2]; [3; 5]]%R [[3; 5]; [1; 2]]%R [[0; 1]; [1; 0]]%R [(0, 1); (1, 0); (0, 1)]%nat <> None.
+Proof. split; [repeat constructor | discriminate]. Qed.
+
+(* The ICP loop model: if the transformation of every iteration in which RANSAC succeeds is the identity (which the
+   theorem above gives for the refit on zero-displacement matches: [concat (midentity (d+1))] are the entries), then
+   find() reports success iff RANSAC succeeds in one of the iterations it may run; it stops AT the first such iteration
+   — the first one whose step-difference test is evaluated — and the transformation it hands out is the identity.
+   For every positive epsilon (the source's 0.001 included) and every sequence of outcomes. *)
+Theorem C06_zero_displacement_icp_identity : forall (eps : R) maxit id (os : list (icp_outcome R)) r,
+  (0 < eps)%R -> (0 <= maxit)%Z ->
+  (forall o, In o os -> io_ok o = true -> io_M o = id) ->
+  icp_run ROps eps maxit id os = Some r ->
+  (ir_found r = true <-> exists o, In o (firstn (Z.to_nat maxit) os) /\ io_ok o = true) /\
+  (ir_found r = true ->
+     exists pre o post, os = pre ++ o :: post /\ ir_n r = Z.of_nat (length pre) /\ (ir_n r < maxit)%Z /\
+       Forall (fun o' => io_ok o' = false) pre /\ io_ok o = true /\
+       icp_returned_iteration r = Some (ir_n r) /\ nth_error os (Z.to_nat (ir_n r)) = Some o /\ io_M o = id) /\
+  (forall o rest, os = o :: rest -> io_ok o = true -> (1 <= maxit)%Z -> ir_found r = true /\ ir_n r = 0%Z).
+Proof. exact zero_disp_icp_identity. Qed.
+Print Assumptions C06_zero_displacement_icp_identity.
+
+(* the two statements meet: the row-major entries of the estimator's identity are the loop model's identity, and the
+   source's epsilon is positive *)
+Example C06_zero_displacement_glue :
+  (forall n, concat (midentity ROps n) = identity_entries ROps n) /\ (0 < icp_epsilon ROps)%R /\ (1 <= icp_maxit)%Z.
+Proof.
+  split; [exact concat_midentity|]. split.
+  - unfold icp_epsilon, icp_transformation_epsilon_m, icp_transformation_epsilon_e. cbn [nofDec ROps].
+    apply Rmult_lt_0_compat; [apply IZR_lt; reflexivity | apply powerRZ_lt; lra].
+  - vm_compute. discriminate.
+Qed.
+
+(* ------------------------------------------------------------------------------------------------ zero displacement: RANSAC *)
+(* The RANSAC rigid-motion model at zero displacement.  [pair_zero]: the correspondence pairs a target point with an
+   identical source point (dim stored coordinates, + 1 for homogeneous types).  With the identity as drawn candidate (what
+   the estimator returns on any sample of such pairs, C06_zero_displacement_estimate_identity): every residual is 0, the
+   consensus countInliers builds has as many entries as there are correspondences, all with residual 0, its rmse is 0,
+   check_ accepts the sample, and countInliers returns the number of correspondences (fresh object: stores the
+   consensus; an object that already holds it: unchanged). *)
+Theorem C06_zero_displacement_rigid_consensus : forall hom dim src tgt (sigma : R) sorted sample mininl,
+  (dim = 2 \/ dim = 3)%nat -> (0 < sigma)%R ->
+  Forall (pair_zero hom dim src tgt) sorted -> Forall (pair_zero hom dim src tgt) sample ->
+  let Id := midentity ROps (S dim) in
+  let cs := consensus ROps hom dim Id src tgt sigma sorted in
+  (forall c, In c sorted -> residual ROps hom dim Id src tgt c = 0%R) /\
+  length cs = length sorted /\ Forall (fun c => c_sq c = 0%R) cs /\ rmse_of ROps cs = 0%R /\
+  check_sample ROps hom dim Id src tgt sigma sample = true /\
+  ((1 <= mininl <= Z.of_nat (length sorted))%Z ->
+   let r := rigid_count ROps hom dim mininl src tgt sigma sorted Id (rigid_init ROps) in
+   snd r = Z.of_nat (length sorted) /\ rs_best (fst r) = cs /\ rs_rmse (fst r) = 0%R).
+Proof.
+  intros hom dim src tgt sigma sorted sample mininl Hd Hs Hz Hsm Id cs.
+  destruct (consensus_all hom dim src tgt sigma Hd Hs sorted Hz) as (A & B & C). cbv zeta in A, B, C.
+  split; [intros c Hc; apply residual_zero; [exact Hd | rewrite Forall_forall in Hz; now apply Hz]|].
+  split; [exact A|]. split; [eapply Forall_impl; [|exact B]; intros c [E _]; exact E|]. split; [exact C|].
+  split; [now apply check_sample_zero|].
+  intros Hm r.
+  destruct (rigid_count_zero hom dim src tgt sigma Hd Hs mininl sorted (rigid_init ROps) Hz Hm (or_introl eq_refl)) as (X1 & _ & X3 & X4 & _).
+  split; [exact X1|]. split; [now apply X4 | exact X3].
+Qed.
+Print Assumptions C06_zero_displacement_rigid_consensus.
+
+(* ... and driven by Ransac::estimateModel (the model the source tie above is about): if every drawn candidate is the
+   identity and every sample consists of such pairs, with at least the minimal number of correspondences (2 x draw size)
+   and fewer than 2^24, estimateModel returns TRUE whatever the number of further draws; the reported consensus error is 0,
+   the consensus has the size of the correspondence list and is what refine() hands to the estimator — whose answer is
+   again the identity (C06_zero_displacement_estimate_identity), which the ICP loop then returns at its first iteration
+   (C06_zero_displacement_icp_identity).  What stays outside: that the kd-tree pairs every point with itself (C08). *)
+Theorem C06_zero_displacement_ransac_succeeds : forall hom dim src tgt (sigma : R) corrs npoints p maxit sample script,
+  (dim = 2 \/ dim = 3)%nat -> (0 < sigma)%R ->
+  Forall (pair_zero hom dim src tgt) corrs -> Forall (pair_zero hom dim src tgt) sample ->
+  Forall (fun e : list (list R) * list (corr R) => fst e = midentity ROps (S dim) /\ Forall (pair_zero hom dim src tgt) (snd e)) script ->
+  (rigid_min_inliers (Z.of_nat dim) <= npoints)%Z ->
+  (rigid_min_inliers (Z.of_nat dim) <= Z.of_nat (length corrs) < 2 ^ 24)%Z -> (1 <= maxit)%Z ->
+  exists r, estimate_rigid ROps hom dim src tgt sigma corrs npoints p maxit ((midentity ROps (S dim), sample) :: script) = Some r /\
+    er_ok r = true /\ rs_rmse (ro_st (er_state r)) = 0%R /\
+    length (rs_best (ro_st (er_state r))) = length corrs /\
+    ro_refit (er_state r) = Some (rs_best (ro_st (er_state r))).
+Proof. intros hom dim src tgt sigma corrs npoints p maxit sample script Hd Hs. now apply zero_disp_ransac_succeeds. Qed.
+Print Assumptions C06_zero_displacement_ransac_succeeds.
+
+Example C06_zero_displacement_ransac_example :
+  let pts := [[0; 0]; [1; 0]; [0; 1]; [1; 1]; [2; 0]; [0; 2]]%R in
+  let corrs := map (fun i => mkCorr i i 0%R) [0; 1; 2; 3; 4; 5]%Z in
+  Forall (pair_zero false 2 pts pts) corrs /\ (rigid_min_inliers 2 <= Z.of_nat (length corrs) < 2 ^ 24)%Z.
+Proof. cbv zeta. split; [repeat constructor | vm_compute; split; [discriminate | reflexivity]]. Qed.
+
+(* ------------------------------------------------------------------------------------------------ SOURCE TIE (syntactic) *)
+(* coq/gen/SrcRansac.v is regenerated on every run by translate/tr_C06_ransac.py from the clang AST of
+   RansacIterations.cpp, Ransac.cpp and FindRigidTransformationByICP.cpp; the theorems below say that the regenerated
+   terms ARE the models the theorems above talk about.  An edit of the C++ that changes the meaning makes them unprovable. *)
+
+(* RansacIterations — constructor, get, update — for EVERY numeric dictionary (by conversion: the same term is what the
+   binary64 instance executes).  The object is the tuple of its three members; the model keeps the iteration bound as the
+   integer the double holds ([iters_rep]).  update: same EPSILON clamps, same quotient, truncation (ntruncZ), std::min. *)
+Theorem C06_source_tie_iterations : forall (T : Type) (N : NumOps T) (s : iters T) (npoints : Z) (p : T) (maxit k sdraw : Z),
+  src_iters_init N npoints p maxit = iters_rep N (iters_init N npoints p maxit) /\
+  src_iters_get N (iters_rep N s) = nofZ N (iters_get s) /\
+  src_iters_update N (iters_rep N s) k sdraw =
+    (it_logopp s, it_oneovern s, nmin2 N (nofZ N (it_n s)) (nofZ N (ntruncZ N (iters_ratio N s k sdraw)))) /\
+  (int_order_embedding N -> src_iters_update N (iters_rep N s) k sdraw = iters_rep N (iters_update N s k sdraw)).
+Proof.
+  intros. split; [apply tie_iters_init|]. split; [apply tie_iters_get|]. split; [apply tie_iters_update_raw|].
+  intros H. now apply tie_iters_update.
+Qed.
+Print Assumptions C06_source_tie_iterations.
+
+(* the hypothesis of the last clause holds for the reals (and for binary64 on |integers| <= 2^53) *)
+Theorem C06_source_tie_iterations_R : forall (s : iters R) (k sdraw : Z),
+  int_order_embedding ROps /\
+  src_iters_update ROps (iters_rep ROps s) k sdraw = iters_rep ROps (iters_update ROps s k sdraw).
+Proof. intros. split; [exact int_order_embedding_R | apply tie_iters_update; exact int_order_embedding_R]. Qed.
+Print Assumptions C06_source_tie_iterations_R.
+
+(* Ransac::estimateModel — the regenerated program over an abstract RansacModel (every virtual call on ransacModel_ is an
+   argument; the model object is a state threaded through them) run with the source's own maximum as fuel returns exactly
+   what RansacModel.estimate returns: the boolean and the final model object.  Every dictionary whose integer -> scalar
+   conversion is order preserving (needed only for `iteration < ransacIterations.get()` and std::min). *)
+Theorem C06_source_tie_estimateModel : forall (T : Type) (N : NumOps T), int_order_embedding N ->
+  forall (S : Type) (draw : T -> S -> S * bool) (countInliers : T -> S -> S * Z) (refine : S -> S)
+         (getNumberOfPoints getNumberOfPointsToDrawModel getMinimalNumberOfInliers : S -> Z) (p sigma : T) (s : S),
+  src_estimateModel N draw countInliers refine getNumberOfPoints getNumberOfPointsToDrawModel getMinimalNumberOfInliers
+                    (Z.to_nat ransac_maxit) p sigma s =
+  match estimate N (draw sigma) (countInliers sigma) refine (getNumberOfPointsToDrawModel s)
+                 (getNumberOfPoints s) (getMinimalNumberOfInliers s) p ransac_maxit s with
+  | None => None
+  | Some r => Some (er_ok r, er_state r)
+  end.
+Proof. intros T N H S. exact (tie_estimateModel N H). Qed.
+Print Assumptions C06_source_tie_estimateModel.
+
+(* ... hence C06_estimate_logic holds of the regenerated program itself (reals): it terminates within the source's
+   maximum, returns true iff the largest count seen through the float variable exceeds the draw size, and the object it
+   leaves is refine(...) of the loop's object iff it returns true *)
+Theorem C06_source_estimateModel_logic : forall (S : Type) (draw : R -> S -> S * bool) (countInliers : R -> S -> S * Z)
+    (refine : S -> S) (gnp gsd gmi : S -> Z) (p sigma : R) (s : S),
+  (forall x, 0 <= snd (countInliers sigma x))%Z -> (gmi s <= gnp s)%Z ->
+  exists (ok : bool) (s_loop : S) (loop_calls : list rcall),
+    src_estimateModel ROps draw countInliers refine gnp gsd gmi (Z.to_nat ransac_maxit) p sigma s =
+      Some (ok, if ok then refine s_loop else s_loop) /\
+    (ok = true <-> (gsd s < max_rounded 0 (counts_of loop_calls))%Z) /\ (draws_of loop_calls <= ransac_maxit)%Z.
+Proof.
+  intros S draw cnt refine gnp gsd gmi p sigma s Hc Hm.
+  rewrite (tie_estimateModel ROps int_order_embedding_R).
+  destruct (C06_estimate_logic R ROps S (draw sigma) (cnt sigma) refine (gsd s) (gnp s) (gmi s) p ransac_maxit s Hc Hm)
+    as (r & calls & sl & E & _ & Hb & Hok & _ & Hst & Hit & Hle); [vm_compute; discriminate|].
+  rewrite E. exists (er_ok r), sl, calls. rewrite Hst. split; [reflexivity|]. rewrite <- Hb. split; [exact Hok | lia].
+Qed.
+Print Assumptions C06_source_estimateModel_logic.
+
+(* FindRigidTransformationByICP::find — the block run when ransac_.estimateModel() succeeded (difference with the
+   PREVIOUS estimate, best-estimate backup, break test, previous := current) is icp_step, for every dictionary; the
+   model's is_best names the iteration whose matrix bestRigidTransformation then holds.  Loop header and return
+   statement: n < max, n + 1, n != max. *)
+Theorem C06_source_tie_icp_exit : forall (T : Type) (N : NumOps T) (eps : T) (n : Z) (st : icp_state T) (o : icp_outcome T)
+    (bestM : list T) (maxit : Z),
+  (src_icp_block N (io_rmse o) (io_M o) eps (is_best_rmse st) bestM (is_prev st) =
+     (let st' := fst (icp_step N eps n st o) in
+      (is_best_rmse st', (if nltb N (io_rmse o) (is_best_rmse st) then io_M o else bestM), is_prev st'),
+      snd (icp_step N eps n st o)) /\
+   is_best (fst (icp_step N eps n st o)) = (if nltb N (io_rmse o) (is_best_rmse st) then Some n else is_best st)) /\
+  src_icp_continue maxit n = (n <? maxit)%Z /\ src_icp_next n = (n + 1)%Z /\ src_icp_return maxit n = negb (n =? maxit)%Z.
+Proof. intros. split; [apply tie_icp_block | apply tie_icp_header]. Qed.
+Print Assumptions C06_source_tie_icp_exit.
+
+(* the for loop assembled from those regenerated pieces (SrcTieC06.src_icp_loop: skip when RANSAC failed, else the block;
+   leave on break; the source's continuation test, increment and return expression) computes icp_run: same return value,
+   same loop counter, same rmse / previous matrix, and bestRigidTransformation is the matrix of iteration is_best *)
+Theorem C06_source_tie_icp_loop : forall (T : Type) (N : NumOps T) (eps : T) (maxit : Z) (identity : list T)
+    (os : list (icp_outcome T)), (0 <= maxit)%Z ->
+  match icp_run N eps maxit identity os with
+  | None => src_icp_loop N eps maxit (S (Z.to_nat maxit)) 0 (nmaxval N) identity identity os = None
+  | Some r =>
+    src_icp_loop N eps maxit (S (Z.to_nat maxit)) 0 (nmaxval N) identity identity os =
+    Some (ir_found r, ir_n r, (is_best_rmse (ir_state r), best_matrix identity os (is_best (ir_state r)), is_prev (ir_state r)))
+  end.
+Proof. intros T N. exact (tie_icp_run N). Qed.
+Print Assumptions C06_source_tie_icp_loop.
 
 (* obligations on the constants regenerated from the sources that the statements above rely on *)
 Example C06_constants :
